@@ -74,15 +74,19 @@ impl LuaMemberIndex {
         if feature.is_decl() {
             if let Some(item) = member_map.get_member_mut(&key) {
                 match item {
+                    // declarations of one key stay ordered by file and position, so that the one a lookup
+                    // picks first does not depend on the order in which the files were (re-)analysed
                     LuaMemberIndexItem::One(old_id) => {
                         if old_id != &id {
-                            let ids = vec![*old_id, id];
+                            let mut ids = vec![*old_id, id];
+                            ids.sort_by_key(|it| (it.file_id, it.get_position()));
                             *item = LuaMemberIndexItem::Many(ids);
                         }
                     }
                     LuaMemberIndexItem::Many(ids) => {
                         if !ids.contains(&id) {
                             ids.push(id);
+                            ids.sort_by_key(|it| (it.file_id, it.get_position()));
                         }
                     }
                 }
